@@ -462,8 +462,9 @@ def monitor_exit(sh: Shadow, i: int, op: dict[str, Any], r: dict[str, Any]) -> N
     x["state"] = "closing"
     body_lines = [s for s in trace if s.startswith("body")]
     want_bodies = []
+    want_evs: list[str] = []
     for cb in order:
-        outs = [replay_body(sh, i, x, c, b) for b in cb["body"]]
+        outs = [replay_body(sh, i, x, c, b, want_evs) for b in cb["body"]]
         if outs:
             want_bodies.append("body [" + ", ".join(outs) + "]")
     if body_lines != want_bodies:
@@ -500,8 +501,9 @@ def monitor_exit(sh: Shadow, i: int, op: dict[str, Any], r: dict[str, Any]) -> N
     else:
         if not outcome.startswith(f"raised [{be_name}] "):
             sh.flag("C01", f"step {i}: the block's own BaseException {be_name} surfaced as {outcome!r}")
-    # events of the bodies
-    expect_events(sh, i, r, None, c)
+    # events of the bodies: publications made while the context is being torn down are announced
+    # like any other
+    expect_events(sh, i, r, want_evs if body_lines == want_bodies else None, c)
     x["state"] = "closed"
     x["tds"] = []
     # lookups still suspended on a factory when their context is closed are outside every
@@ -515,8 +517,10 @@ def monitor_exit(sh: Shadow, i: int, op: dict[str, Any], r: dict[str, Any]) -> N
         sh.ctx[x["parent"]]["children"].discard(c)
 
 
-def replay_body(sh: Shadow, i: int, x: dict[str, Any], c: int, b: dict[str, Any]) -> str:
-    """Effect and expected answer of one operation done by a teardown callback (context closing)."""
+def replay_body(sh: Shadow, i: int, x: dict[str, Any], c: int, b: dict[str, Any], evs: list[str] | None = None) -> str:
+    """Effect and expected answer of one operation done by a teardown callback (context closing);
+    the resource_added events it must cause are appended to `evs`."""
+    evs = evs if evs is not None else []
     if b["op"] == "add":
         if not valid_name(b["name"]):
             return "valueError"
@@ -524,6 +528,7 @@ def replay_body(sh: Shadow, i: int, x: dict[str, Any], c: int, b: dict[str, Any]
             return "conflict"
         for ty in b["types"]:
             x["static"][(ty, b["name"])] = f"s{b['v']}"
+        evs.append(f"ev {c} [{','.join(map(str, b['types']))}] {b['name']} - r")
         return "ok"
     if b["op"] == "addf":
         return "runtimeError closing"
@@ -535,7 +540,8 @@ def replay_body(sh: Shadow, i: int, x: dict[str, Any], c: int, b: dict[str, Any]
         if key in x["facs"]:
             if x["facs"][key]["async"]:
                 return "asyncError"
-            val, _ = generation(sh, i, x, c, x["facs"][key])
+            val, e = generation(sh, i, x, c, x["facs"][key])
+            evs.extend(e)
             return "raisedExc exn0" if val is None else f"val {val}"
         return "none" if b["opt"] else "notFound"
     return f"cur {c}"
